@@ -54,6 +54,8 @@ def edge_trees():
         _t("E_dd_select", Cfg("S", B, "s", selects=[("Y", None)]), Cfg("X", B, "x", defaults=[("y", None)]), Cfg("Y", B, None, depends=["X"]), Cfg("Z", B, "z", depends=["Y"])),
         # several prompts on one definition: the last one wins, with its own condition
         _t("E_multi_prompt", Cfg("X", B, "x"), Cfg("Y", I, "y (advanced)", prompt_if="X", defaults=[("5", None)], extra=['prompt "y"']), Cfg("W", B, "w first", extra=['prompt "w (gated)" if X']), Choice("CH", "ch (advanced)", prompt_if="X", children=[Cfg("M1", B, "m1"), Cfg("M2", B, "m2")], extra=['prompt "ch"'])),
+        # defaults in one place, the prompt in a later definition
+        _t("E_multidef_late", Cfg("X", B, "x"), Cfg("Y", B, None, defaults=[("y", "X")]), Cfg("Y", B, "y late", extra=["# ignore: multiple-definition"]), Cfg("Z", I, "z", depends=["Y"], defaults=[("3", None)]), Cfg("YI", I, None, defaults=[("4", None)]), Cfg("YI", I, "yi late", extra=["# ignore: multiple-definition"]), Cfg("W", B, "w", depends=["YI = 7"])),
         _t("E_hexfloat", Cfg("X", H, "x", defaults=[("0x10", None)]), Cfg("Y", H, "y", ranges=[("X", "0xff", None)], defaults=[("0x20", None)]), Cfg("FX", F, "fx", defaults=[("1.5", None)]), Cfg("FY", F, "fy", ranges=[("0.0", "FX", None)], defaults=[("1.0", None)])),
     ]
     return out
